@@ -309,6 +309,41 @@ func init() {
 		return out
 	}
 	ext("(*regexp.Regexp).FindStringSubmatch", submatch)
+	ext("(*regexp.Regexp).FindSubmatch", func(fr *frame, a []value) value {
+		r := a[0].(*reObj)
+		in := toBytes(a[1])
+		m := r.find(in, 0)
+		if m == nil {
+			return []value(nil)
+		}
+		var out []value
+		for k := 0; k+1 < len(m); k += 2 {
+			if m[k] < 0 || m[k+1] < 0 {
+				out = append(out, []value(nil))
+			} else {
+				out = append(out, append([]value{}, in[m[k]:m[k+1]]...))
+			}
+		}
+		return out
+	})
+	ext("(*regexp.Regexp).Find", func(fr *frame, a []value) value {
+		r := a[0].(*reObj)
+		in := toBytes(a[1])
+		m := r.find(in, 0)
+		if m == nil {
+			return []value(nil)
+		}
+		return in[m[0]:m[1]:m[1]]
+	})
+	ext("(*regexp.Regexp).FindIndex", func(fr *frame, a []value) value {
+		r := a[0].(*reObj)
+		m := r.find(toBytes(a[1]), 0)
+		if m == nil {
+			return []value(nil)
+		}
+		return []value{m[0], m[1]}
+	})
+	ext("(*regexp.Regexp).NumSubexp", func(fr *frame, a []value) value { return a[0].(*reObj).re.NumSubexp() })
 	ext("(*regexp.Regexp).FindString", func(fr *frame, a []value) value {
 		r := a[0].(*reObj)
 		in := toBytes(a[1])
@@ -686,7 +721,9 @@ func (r *reObj) matchAt(in []value, start int) []int {
 			case syntax.InstFail:
 				return nil
 			case syntax.InstMatch:
-				return append([]int{}, caps...)
+				nc := append([]int{}, caps...)
+				nc[1] = pos
+				return nc
 			case syntax.InstNop:
 				pc = int(inst.Out)
 			case syntax.InstCapture:
